@@ -9,6 +9,9 @@ CHECKS = {
  "C01": ("explicit-state exploration of field operations (alphabet x alias partitions x closure depth 2, exhaustive 2^33 boundary encodings) against a math/big model",
          "Exhaustive small-scope model checking: every field operation on every ordered pair of a code-derived 460-value alphabet (plus operand pairs steered onto the conditional-subtraction windows), under every receiver/argument alias partition, closed under a second step; thorough tier enumerates all 2^32+977 non-canonical encodings and partners; every length 32..64 of wide reduction. Each transition runs on the real code in lock-step with the reference.",
          "Trusted: Go toolchain, math/big, /verif/ref (self-tested). Values outside the alphabet are covered only by structural equivalence (same carry/borrow/limb pattern).", "DESIGN.md §6 C01"),
+ "C02": ("explicit-state exploration of scalar operations (alphabet x alias partitions x closure depth 2, all Sum/Product vectors of length 0..4 with every pointer pattern, non-canonical bands) against a math/big model",
+         "Exhaustive small-scope model checking: every Scalar operation on every ordered pair of a code-derived ~480-value alphabet (incl. operand pairs steered so that the unreduced sum/difference/Montgomery product lands in [n,2^256)), under every receiver/argument alias partition, closed under a second step; Sum/Product for every vector length 0..4 over 7 values with every repeated-pointer pattern and receiver placement; decoders on bands at both ends of [n,2^256) and all Hamming-weight<=2 offsets with receiver-unchanged checks through the limb hook; half-order boundary and the halfNSat constant.",
+         "Trusted: Go toolchain, math/big, /verif/ref. The 2^128-sized non-canonical window cannot be exhausted (bands + structured values; stated in evidence).", "DESIGN.md §6 C02"),
 }
 
 PENDING_REASON = "check under construction in this round; not yet claimed (see DESIGN.md §6 for the planned bounded-exhaustive check)"
